@@ -248,8 +248,11 @@ var seqBases = []uint32{0, 1, 0x7fffffff, 0xfffffffe, 0xffffffff, 0x00010000, 0x
 type exCase struct {
 	lens    []int
 	seqBase uint32
+	stride  uint32 // distance between the sequence numbers of the in-flight messages
 	variant string
 }
+
+var strides = []uint32{1, 1, 0x10000, 0x01000000, 0x7fffffff}
 
 // exhaustiveCases builds the case list: (a) every single message length that yields 1..6 segments,
 // (b) every ordered tuple of 2 and 3 segment counts (each 1..6) with at most maxTotal segments in flight,
@@ -282,7 +285,7 @@ func exhaustiveCases(P, maxTotal int, allSingles bool) []exCase {
 					}
 					lens[i] = lenForSegments(n, P, vv)
 				}
-				cs = append(cs, exCase{lens: lens, seqBase: seqBases[k%len(seqBases)], variant: []string{"min", "max", "mid", "mixed"}[v]})
+				cs = append(cs, exCase{lens: lens, seqBase: seqBases[k%len(seqBases)], stride: strides[(k/len(seqBases))%len(strides)], variant: []string{"min", "max", "mid", "mixed"}[v]})
 				k++
 			}
 		}
@@ -301,7 +304,7 @@ func runExhaustive(c *vrun.Case, ec exCase, P int) vrun.Result {
 	var segCounts []string
 	for i, l := range ec.lens {
 		data := randBytes(c.Rng, l)
-		m, err := split(ec.seqBase+uint32(i), data)
+		m, err := split(ec.seqBase+uint32(i)*ec.stride, data)
 		if err != nil {
 			return vrun.Violation("SendTo refuses a message far below the segment limit", "sender:refuses-small-message", map[string]any{"len": l, "payload_size": P, "err": err.Error()})
 		}
@@ -327,7 +330,7 @@ func runExhaustive(c *vrun.Case, ec exCase, P int) vrun.Result {
 	got := make([]int, len(msgs))
 	var st feedStats
 	var perms int64
-	desc := map[string]any{"payload_size": P, "lens": ec.lens, "segments": segCounts, "seq_base": ec.seqBase, "variant": ec.variant}
+	desc := map[string]any{"payload_size": P, "lens": ec.lens, "segments": segCounts, "seq_base": ec.seqBase, "seq_stride": ec.stride, "variant": ec.variant}
 	for {
 		for i, p := range perm {
 			order[i] = items[p]
@@ -338,7 +341,7 @@ func runExhaustive(c *vrun.Case, ec exCase, P int) vrun.Result {
 		rb := newBuffers(10 * time.Second)
 		before := st.handed
 		if v := feedJudge(rb, msgs, order, got, &st, func() map[string]any {
-			return map[string]any{"payload_size": P, "lens": ec.lens, "seq_base": ec.seqBase}
+			return map[string]any{"payload_size": P, "lens": ec.lens, "seq_base": ec.seqBase, "seq_stride": ec.stride}
 		}); v != nil {
 			return *v
 		}
@@ -355,7 +358,7 @@ func runExhaustive(c *vrun.Case, ec exCase, P int) vrun.Result {
 			return vrun.Violation("Receive modified a datagram it was given", "reassembly:input-modified", desc)
 		}
 	}
-	res := vrun.Hold(fmt.Sprintf("P=%d lens=%v seq=%d", P, ec.lens, ec.seqBase), total >= 1 && perms == fact(total))
+	res := vrun.Hold(fmt.Sprintf("P=%d lens=%v seq=%d+%d", P, ec.lens, ec.seqBase, ec.stride), total >= 1 && perms == fact(total))
 	res.Desc = desc
 	res.Stat("permutations_run", perms)
 	res.Stat("arrival_orders_with_loss_judged(prefixes)", orderedSubsets(total))
@@ -383,7 +386,7 @@ const exhaustivePar = 14
 
 const ruleExhaustive = "Case = a tuple of 1..3 message lengths (every length yielding 1..6 segments for single messages; every ordered tuple of " +
 	"segment counts 1..6 with at most T segments in flight, in the variants smallest/exact-multiple, largest, middle, mixed) and a sequence-number base " +
-	"(0, 1, 2^31-1, 2^32-3..2^32-1 so that tuples straddle the wrap). The library's SendTo produces the segments; ALL permutations of the union of the " +
+	"(0, 1, 2^31-1, 2^32-3..2^32-1 so that tuples straddle the wrap) with a stride between the in-flight sequence numbers from {1, 2^16, 2^24, 2^31-1}. The library's SendTo produces the segments; ALL permutations of the union of the " +
 	"segments are fed to fresh ReadBuffers and every Receive call is judged (handed up iff last missing segment, byte-exact). Every loss subset in every " +
 	"order is a prefix of a permutation and is judged at that prefix. Non-trivial: all T! permutations were run; distinct: (payload size, lengths, seq base)."
 
@@ -457,6 +460,10 @@ func TestC14Sampled(t *testing.T) {
 		if wrap {
 			seq = 0xffffffff - uint32(r.Intn(nm+1)) + 1 // nm messages straddle 2^32-1 -> 0 (or start exactly at 0)
 		}
+		stride := uint32(1)
+		if !wrap {
+			stride = []uint32{1, 1, 0x100, 0x10000, 0x01000000, 0x33333333}[r.Intn(6)]
+		}
 		maxK := 40
 		if P == realPayload {
 			maxK = 12
@@ -501,7 +508,7 @@ func TestC14Sampled(t *testing.T) {
 				l = budget
 			}
 			classes = append(classes, cl)
-			m, err := split(seq+uint32(i), randBytes(r, l))
+			m, err := split(seq+uint32(i)*stride, randBytes(r, l))
 			if err != nil {
 				return vrun.Violation("SendTo refuses a message within the segment limit", "sender:refuses-message-within-limit:"+cl, map[string]any{"len": l, "payload_size": P, "err": err.Error()})
 			}
@@ -580,7 +587,7 @@ func TestC14Sampled(t *testing.T) {
 		rb := newBuffers(10 * time.Second)
 		got := make([]int, nm)
 		var st feedStats
-		desc := map[string]any{"payload_size": P, "classes": classes, "seq_first": seq, "order": orderKind, "loss": lossKind, "segments_sent": len(order), "segments_lost": len(lost)}
+		desc := map[string]any{"payload_size": P, "classes": classes, "seq_first": seq, "seq_stride": stride, "order": orderKind, "loss": lossKind, "segments_sent": len(order), "segments_lost": len(lost)}
 		if v := feedJudge(rb, msgs, kept, got, &st, func() map[string]any {
 			w := map[string]any{}
 			for k, v := range desc {
